@@ -234,7 +234,8 @@ type node struct {
 	failure string
 
 	// signer log across lives (C34)
-	signed map[string]released
+	signed   map[string]released
+	ownAdded map[[3]int64]*types.Vote // own votes the node reported as added (WAL-synced), for the C33 replay check
 
 	// simulator-side model of the timeout ticker
 	timer    cons.SimTimeout
